@@ -56,28 +56,10 @@ func replay(k *kase, i int) string {
 // debugging aid: `vh c15-example --skip=K-C15-or,C15-plain-gen,…` drops the diffs of these classes / components
 var skip = map[string]bool{}
 
-// addDiff: every unclassified diff goes into the report; of each known-finding class only the first
-// maxPerClass witnesses do (the report keeps 25 diffs: classified ones must never crowd out an
-// unclassified one); all of them are counted in stats and in Extra["classified_diffs_total"].
-const maxPerClass = 3
-
-var perClass = map[string]int{}
-
+// addDiff: vh.Report keeps a few witnesses per (component, level, class) and counts every diff per class.
 func addDiff(rep *vh.Report, d vh.Diff) {
 	if skip[d.Component] || (d.Class != "" && skip[d.Class]) {
 		return
-	}
-	if d.Class != "" {
-		perClass[d.Class]++
-		total := 0
-		for _, n := range perClass {
-			total += n
-		}
-		rep.Extra["classified_diffs_total"] = fmt.Sprint(total)
-		rep.Extra["diffs_of_"+d.Class] = fmt.Sprint(perClass[d.Class])
-		if perClass[d.Class] > maxPerClass {
-			return
-		}
 	}
 	rep.AddDiff(d)
 }
@@ -94,7 +76,7 @@ func Run(args []string) {
 			}
 		}
 	}
-	rep := vh.NewReport(command, "(A) random type graphs over 1..3 user types: object / array / alias / or-shortcut / literal bodies, required, optional and nullable references, array items, {type} and {or} rules, key shortcuts (string types with regex / length / enum rules; rarely aliased), enum rules via AddRule, allOf, additionalProperties, rarely or-rules on empty containers; root + every type as its own root; only schemas accepted by Check are examined. (B) plain-JSON schemas (depth <= 4, all literal forms, escaped keys) with random layout, rules and notes. nontrivial = (A) the example builder enters at least one user type, (B) the schema has at least one container")
+	rep := vh.NewReport(command, "(A) random type graphs over 1..3 user types: object / array / alias / or-shortcut / literal bodies, required, optional and nullable references, array items, {type} and {or} rules, key shortcuts (string types with regex / length / enum rules; rarely aliased), enum rules via AddRule, allOf, additionalProperties, rarely or-rules on empty containers; root + every type as its own root; only schemas accepted by Check are examined. (B) plain-JSON schemas (depth <= 4, all literal forms, keys with every escape spelling: control characters, DEL, \\u0041, \\/, surrogate pairs; the same spellings occur in property names of (A)) with random layout, rules and notes. nontrivial = (A) the example builder enters at least one user type, (B) the schema has at least one container")
 	seed := vh.Seed()
 	workers := runtime.NumCPU()
 	if workers > 16 {
@@ -117,7 +99,7 @@ func Run(args []string) {
 		nA := vh.Pick(10000, 600000)
 		for i := 0; i < nA; i++ {
 			r := rand.New(rand.NewSource(seed*1000003 + 1515 + int64(i)*7919))
-			g := c09.RandomGraph(r, 3, c09.Options{Enums: true, OrContainer: true, StringRules: true, ManyKeys: true})
+			g := c09.RandomGraph(r, 3, c09.Options{Enums: true, OrContainer: true, StringRules: true, ManyKeys: true, ExoticKeys: true})
 			k := &kase{g: g, roots: []*tg.Node{g.Root}, names: []string{"root"}}
 			req := &tg.Req{Example: true, Rules: c09.EnumRules}
 			req.Schemas = append(req.Schemas, tg.SchemaReq{Name: "root", Text: g.Root.Text()})
